@@ -114,15 +114,16 @@ def gen_coqproject():
         open(cp, "w").write(new)
 
 
-def coq_make(timeout=3000):
-    """Full .vo build (never -vos).  Returns (ok, log)."""
+def coq_make(timeout=3000, targets=None):
+    """Full .vo build (never -vos) of the whole development, or of the given .vo targets and everything they depend on
+    (a check builds its own property file and evaluator; bin/setup builds everything).  Returns (ok, log)."""
     with Lock("coq"):
         gen_coqproject()
         if not os.path.exists(os.path.join(COQ, "Makefile")) or \
                 os.path.getmtime(os.path.join(COQ, "Makefile")) < os.path.getmtime(os.path.join(COQ, "_CoqProject")):
             subprocess.run(["coq_makefile", "-f", "_CoqProject", "-o", "Makefile"], cwd=COQ, check=True,
                            stdout=subprocess.DEVNULL)
-        p = subprocess.run(["timeout", str(timeout), "make", "-j16", "-k"], cwd=COQ, stdout=subprocess.PIPE,
+        p = subprocess.run(["timeout", str(timeout), "make", "-j16", "-k"] + list(targets or []), cwd=COQ, stdout=subprocess.PIPE,
                            stderr=subprocess.STDOUT, text=True)
         return p.returncode == 0, p.stdout
 
